@@ -350,6 +350,24 @@ BlockShadowLaw == \A i \in 1..Len(BlockShadowSeq) :
   \/ (BlockShadowOut(i).status = "value" /\ BlockShadowOut(i).v = TupV(<<IntV(1), IntV(1)>>))
   \/ (PrintT(<<"BLOCKSHADOWLAW", BlockShadowSeq[i], BlockShadowOut(i)>>) /\ FALSE)
 
+\* An assignment nested in an operand takes effect whatever the surrounding operator makes of its value: `(c += 1) * 0' is 0
+\* AND c was incremented - with the zero a literal, hidden, or a captured parameter of a closure made for it.
+NestedAsg(k) ==
+  CASE k = "times-literal-zero" -> <<Set("c", MutE(WInt, I(10))), Set("d", V("c")), Set("y", Bin("*", Asg("+=", V("c"), I(1)), I(0))), TupE(<<V("y"), Deref(V("c")), Deref(V("d"))>>)>>
+    [] k = "zero-times" -> <<Set("c", MutE(WInt, I(10))), Set("d", V("c")), Set("y", Bin("*", I(0), Asg("=", V("c"), I(11)))), TupE(<<V("y"), Deref(V("c")), Deref(V("d"))>>)>>
+    [] k = "and-zero" -> <<Set("c", MutE(WInt, I(10))), Set("d", V("c")), Set("y", Bin("&", Asg("+=", V("c"), I(1)), I(0))), TupE(<<V("y"), Deref(V("c")), Deref(V("d"))>>)>>
+    [] k = "times-hidden-zero" -> <<Set("c", MutE(WInt, I(10))), Set("d", V("c")), Set("y", Bin("*", Asg("+=", V("c"), I(1)), Hide(WInt, I(0)))), TupE(<<V("y"), Deref(V("c")), Deref(V("d"))>>)>>
+    [] k = "captured-factor" ->
+         <<Set("c", MutE(WInt, I(9))), Set("d", V("c")),
+           FnDecl("scaled", <<P("k", WInt)>>, WFn(<<>>, WInt), <<Ret(FnE(<<>>, WInt, <<Ret(Bin("*", Asg("+=", V("c"), I(1)), V("k")))>>))>>),
+           Set("a", CallE(CallE(V("scaled"), <<Hide(WInt, I(2))>>), <<>>)), Set("y", CallE(CallE(V("scaled"), <<Hide(WInt, I(0))>>), <<>>)),
+           TupE(<<V("y"), Deref(V("c")), Deref(V("d"))>>)>>
+NestedAsgSeq == <<"times-literal-zero", "zero-times", "and-zero", "times-hidden-zero", "captured-factor">>
+NestedAsgOut(i) == Outcome(Run(NestedAsg(NestedAsgSeq[i]), 2000))
+NestedAsgLaw == \A i \in 1..Len(NestedAsgSeq) :
+  \/ (NestedAsgOut(i).status = "value" /\ NestedAsgOut(i).v = TupV(<<IntV(0), IntV(11), IntV(11)>>))
+  \/ (PrintT(<<"NESTEDASGLAW", NestedAsgSeq[i], NestedAsgOut(i)>>) /\ FALSE)
+
 WatchNames == <<"c", "other", "s0", "y1", "s1", "y2", "s2">>
 HSeq == SetToSeq(Hists)
 N == Len(HSeq)
@@ -403,8 +421,10 @@ Emit ==
         \o [i \in 1..Len(LhsSeq) |-> [id |-> "c13-target-before-value-" \o LhsSeq[i][1] \o "-" \o ToString(LhsSeq[i][2]), suite |-> "c13",
                                       prog |-> LhsMoves(LhsSeq[i][1], AllAsgOps[LhsSeq[i][2]]), exp |-> LhsOut(i), watch |-> <<>>]]
         \o [i \in 1..Len(BlockShadowSeq) |-> [id |-> "c13-cell-declared-in-" \o BlockShadowSeq[i], suite |-> "c13",
-                                      prog |-> BlockShadow(BlockShadowSeq[i]), exp |-> BlockShadowOut(i), watch |-> <<>>]])
-  /\ FreshCells /\ RhsLaw /\ WideLaw /\ SelfLaw /\ LhsLaw /\ BlockShadowLaw
+                                      prog |-> BlockShadow(BlockShadowSeq[i]), exp |-> BlockShadowOut(i), watch |-> <<>>]]
+        \o [i \in 1..Len(NestedAsgSeq) |-> [id |-> "c13-assignment-nested-in-" \o NestedAsgSeq[i], suite |-> "c13",
+                                      prog |-> NestedAsg(NestedAsgSeq[i]), exp |-> NestedAsgOut(i), watch |-> <<>>]])
+  /\ FreshCells /\ RhsLaw /\ WideLaw /\ SelfLaw /\ LhsLaw /\ BlockShadowLaw /\ NestedAsgLaw
   /\ ndJsonSerialize(IOEnv.VERIF_OUT \o "/c13_neg_cases.ndjson",
         [i \in 1..Len(NegSeq) |-> [id |-> "c13-neg-" \o ToString(i), suite |-> "c13", negative |-> TRUE,
                                    prog |-> NegProg(NegSeq[i].n, NegSeq[i].al),
